@@ -70,11 +70,15 @@ def gen_inputs(rng, spec, n=None, capacity_ok=None):
     # a series that never changes (a unit always on, a constant load) is often written as one value
     inp["constants_single"] = bool(rng.random() < 0.3)
     if inp["constants_single"] and n > 1:
+        # (a quarter of these with EVERY consumer constant: the consumers' sum is then one value and the length of the series is that
+        #  of the status / mode / breaker series alone - D70, D89)
+        all_loads = rng.random() < 0.25
         for d in inp["comp"].values():
             if "status" in d and rng.random() < 0.5:
                 d["status"] = [True] * n
-            if "load" in d and rng.random() < 0.3:
+            if "load" in d and (all_loads or rng.random() < 0.3):
                 d["load"] = [d["load"][0]] * n
+        core.axis("consumers", "all constant" if all_loads else "some series")
     return inp
 
 
@@ -114,7 +118,12 @@ def apply_inputs(plant, inp, copy=True):
         else:
             obj.status = arr(d["status"], st_dt)
             obj.load_sharing_mode = mode_arr(d["mode"])
-            obj.power_input = arr(d["given"], pw_dt)
+            if any(m != 0 for m in d["mode"]):
+                obj.power_input = arr(d["given"], pw_dt)
+            else:
+                # a unit that shares the load at every step is given no power: its power is a result of the balance (giving one
+                # anyway would overwrite what an earlier calculation left there - and hide that it is taken for an input: D89)
+                core.axis("load-sharing unit", "power not given")
     ties = plant.spec.get("bus_ties", [])
     if ties:
         table = np.array(inp["breaker"], dtype=br_dt).T.reshape(len(inp["breaker"][0]), len(ties))     # (a table of another length: C20)
